@@ -91,7 +91,7 @@ def run(ctx):
     ctx.monitor_rule = ("paired runs: same integer random_state under two different ambient generator states give identical "
                         "search_data / best_score / best_para (with another instance of the same class run in between on a space of another dimension); a random_state=None run is reproduced by random_state=random_seed "
                         "(nth_process None or 0); random_seed == random_state + nth_process; all 22 optimizers (sklearn surrogates, "
-                        "populations, nested helpers), constraints, rand_rest_p, sampling; population optimizers also constructed twice with the very same "
+                        "populations, nested helpers), constraints, rand_rest_p, sampling, max_sample_size below the space size; population optimizers also constructed twice with the very same "
                         "initialize object / the omitted default and a population above the number of initial positions; distinct by (optimizer, seed, config)")
     ctx.assumptions.append("absence of entropy sources other than the two global generators cannot be proved in a model: it is covered by the "
                            "seeding-event log and the paired-run monitor")
@@ -115,6 +115,14 @@ def run(ctx):
                 cfg.pop("population", None)
             if name in gen.SMBO and name != "LipschitzOptimizer" and rng.random() < 0.5:
                 cfg["sampling"] = {"random": rng.choice([10, 20])}
+            import inspect
+            if "max_sample_size" in inspect.signature(gen.opt_class(name).__init__).parameters and (rep == 0 or rng.random() < 0.5):
+                # below |space0| = 35: the candidate grid itself is sampled; what follows must draw again (a small random candidate sample,
+                # random restarts), otherwise nothing random happens after the grid and a difference in the draws stays invisible
+                cfg["max_sample_size"] = 21 + (names.index(name) + 5 * rep) % 13      # a different limit per class: nothing shared between classes by value
+                if "sampling" in inspect.signature(gen.opt_class(name).__init__).parameters and name != "LipschitzOptimizer":
+                    cfg["sampling"] = {"random": rng.choice([3, 4])}
+                cfg["rand_rest_p"] = 0.25
             if name == "GridSearchOptimizer":
                 cfg["rand_rest_p"] = 0.5
             feas = None
